@@ -80,6 +80,15 @@ def check_solve(ctx, M, kind, solver=None, fresh_total=None):
 def gen_random(rng, kind):
     r = rng.randint(1, 10)
     c = r if rng.random() < 0.5 else rng.randint(1, 10)
+    if kind in ('wide', 'tall'):
+        # padded problems with several real rows/columns: the padding takes part in every reduction step
+        a = rng.randint(4, 8)
+        b = a + rng.randint(1, 3)
+        r, c = (a, b) if kind == 'wide' else (b, a)
+        hi = rng.choice([3, 9, 9, 20])
+        if rng.random() < 0.3:
+            return [[round(rng.choice([0, 0.25, 0.5, 0.75, 1]), 2) for _ in range(c)] for _ in range(r)]
+        return [[rng.randint(0, hi) for _ in range(c)] for _ in range(r)]
     if kind == 'int':
         hi = rng.choice([1, 2, 3, 9, 100])
         return [[rng.randint(0, hi) for _ in range(c)] for _ in range(r)]
@@ -140,8 +149,8 @@ def run(ctx):
                  n44, not ctx.quick)
 
     # --- random classes
-    kinds = ['int', 'float', 'ties', 'grade', 'neartie', 'mixed']
-    for i in range(ctx.n(60000, 1500000)):
+    kinds = ['int', 'float', 'ties', 'grade', 'neartie', 'mixed', 'wide', 'wide', 'tall']
+    for i in range(ctx.n(90000, 2250000)):
         kind = kinds[i % len(kinds)]
         M = gen_random(rng, kind)
         check_solve(ctx, M, kind)
